@@ -77,11 +77,14 @@ struct CursorObs {
     name: Option<Vec<u8>>,
     offset: Option<usize>,
     next: Option<Option<(Vec<u8>, usize)>>,
+    /// read through the same cursor right after the operation
+    ttl_after: Option<u32>,
+    type_after: Option<u16>,
 }
 
 impl Default for CursorObs {
     fn default() -> Self {
-        CursorObs { result: Ok(()), second: None, tombstone: false, name: None, offset: None, next: None }
+        CursorObs { result: Ok(()), second: None, tombstone: false, name: None, offset: None, next: None, ttl_after: None, type_after: None }
     }
 }
 
@@ -428,7 +431,8 @@ impl<'a> Interp<'a> {
                     }
                     n.to_wire()
                 };
-                self.trace.push(format!("set_raw_name(sec{} #{} {} {})", sec, k, kind, hex(&raw[..raw.len().min(40)])));
+                let follow_ttl: Option<u32> = if sec != 0 && src.chance(100) { Some(src.u32()) } else { None };
+                self.trace.push(format!("set_raw_name(sec{} #{} {} {}) then-set_rr_ttl={:?}", sec, k, kind, hex(&raw[..raw.len().min(40)]), follow_ttl));
                 let pp = &mut self.pp;
                 let obs = catch(|| {
                     if sec == 0 {
@@ -448,6 +452,12 @@ impl<'a> Interp<'a> {
                             o.result = c.set_raw_name(&raw).map_err(|e| e.to_string());
                             o.tombstone = c.is_tombstone();
                             if o.result.is_ok() {
+                                // keep using the same cursor: reads, then optionally a TTL write
+                                o.ttl_after = Some(c.rr_ttl());
+                                o.type_after = Some(c.rr_type());
+                                if let Some(t) = follow_ttl {
+                                    c.set_rr_ttl(t);
+                                }
                                 o.name = Some(c.name());
                                 o.offset = c.offset();
                                 o.next = Some(c.next().map(|n| (n.name(), n.offset().unwrap_or(usize::MAX))));
@@ -474,7 +484,15 @@ impl<'a> Interp<'a> {
                         if sec == 0 {
                             self.model.qd[0].name = new.clone();
                         } else {
-                            self.model.section_mut(sec)[mi].owner = new.clone();
+                            let rec = &mut self.model.section_mut(sec)[mi];
+                            rec.owner = new.clone();
+                            // the same cursor still designates that record
+                            let (want_ttl, want_type) = (rec.ttl, rec.rtype);
+                            ensure!(obs.ttl_after == Some(want_ttl) && obs.type_after == Some(want_type), format!("{} cursor-reads-wrong-record-after-set_raw_name", id), "through the cursor: ttl {:?} type {:?}; the record has ttl {} type {}; {}", obs.ttl_after, obs.type_after, want_ttl, want_type, short(&self.ctx()));
+                            if let Some(t) = follow_ttl {
+                                rec.ttl = t;
+                                self.st.class("op:set_raw_name-then-set_rr_ttl-same-cursor");
+                            }
                         }
                         self.note_mutation(growing != 0);
                         self.st.class(if growing > 0 {
@@ -768,6 +786,43 @@ impl<'a> Interp<'a> {
                 let a = gen_rename_args(src, &self.model);
                 if !a.source.clean() || !a.target.clean() || !a.source.well_formed() || !a.target.well_formed() {
                     return Ok(true);
+                }
+                if want_fail && src.chance(128) {
+                    // an invalid name as target or source: whatever the call reports, an error must leave
+                    // the message and the object untouched (and the call must not crash)
+                    let bad: Vec<u8> = match src.below(7) {
+                        0 => vec![3, b'a', b'.', b'b', 3, b'c', b'o', b'm', 0],
+                        1 => vec![1, b'a', 0xc0, 0x0c],
+                        2 => vec![5, b'a', b'b'],
+                        3 => {
+                            let mut v = vec![64u8];
+                            v.extend(std::iter::repeat(b'a').take(64));
+                            v.push(0);
+                            v
+                        }
+                        4 => vec![1, b'a', 0, b'x', b'y'],
+                        5 => vec![2, b'a', 0, 0],
+                        _ => vec![1, 0x07, 0],
+                    };
+                    let (tw, sw) = if src.chance(128) { (bad.clone(), a.source.to_wire()) } else { (a.target.to_wire(), bad.clone()) };
+                    self.trace.push(format!("rename(invalid argument target={} source={} suffix={})", hex(&tw), hex(&sw), a.suffix));
+                    let pp = &mut self.pp;
+                    let r = catch(|| pp.rename_with_raw_names(&tw, &sw, a.suffix).map_err(|e| e.to_string()));
+                    match r {
+                        Err(pm) => {
+                            if self.which != Which::C10 {
+                                return Err(Failure::new("SKIP", ""));
+                            }
+                            fail!(format!("C10 rename-panic-on-invalid-name {}", panic_sig(&pm)), "{} {}", pm, short(&self.ctx()))
+                        }
+                        Ok(Ok(())) => return Err(Failure::new("SKIP", "")),
+                        Ok(Err(_)) => {
+                            self.st.class("fail:rename-invalid-name");
+                            self.note_failure();
+                            self.post(src, true, &before, &before_bytes)?;
+                            return Ok(true);
+                        }
+                    }
                 }
                 self.trace.push(format!("rename(target={} source={} suffix={})", a.target.show(), a.source.show(), a.suffix));
                 let expected = model_rename(&self.model, &a.target, &a.source, a.suffix);
@@ -1166,7 +1221,7 @@ pub fn check_c08(ctx: &Ctx, known: &KnownFindings) -> Report {
 
 pub fn check_c09(ctx: &Ctx, known: &KnownFindings) -> Report {
     let mut rep = check_ops(Which::C09, ctx, known, 400_000, 5_000_000, 9);
-    rep.require(&["op:set_rr_ttl", "op:set_rr_ip", "op:set_raw_name-grow", "op:set_raw_name-shrink", "op:delete", "op:delete-opt", "op:insert", "op:insert-question", "op:rename"]);
+    rep.require(&["op:set_rr_ttl", "op:set_rr_ip", "op:set_raw_name-then-set_rr_ttl-same-cursor", "op:set_raw_name-grow", "op:set_raw_name-shrink", "op:delete", "op:delete-opt", "op:insert", "op:insert-question", "op:rename"]);
     rep
 }
 
@@ -1174,7 +1229,7 @@ pub fn check_c10(ctx: &Ctx, known: &KnownFindings) -> Report {
     let mut rep = check_ops(Which::C10, ctx, known, 300_000, 4_000_000, 10);
     rep.require(&[
         "fail:second-question", "fail:set_raw_name-label-64", "fail:set_raw_name-pointer", "fail:set_raw_name-truncated", "fail:set_raw_name-name-256", "fail:set_raw_name-empty-slice",
-        "fail:set_raw_name-forbidden-char", "fail:op-on-tombstone", "fail:malformed-text", "fail:rename-overflow", "fail:packet-too-large", "fail:packet-too-large-from-above-8192", "start:>8192", "op:insert-near-limit",
+        "fail:set_raw_name-forbidden-char", "fail:op-on-tombstone", "fail:malformed-text", "fail:rename-overflow", "fail:rename-invalid-name", "fail:packet-too-large", "fail:packet-too-large-from-above-8192", "start:>8192", "op:insert-near-limit",
     ]);
     rep
 }
